@@ -85,6 +85,18 @@ def generate(rng, tier):
             for citem in [C.sl(), C.sl(1, None), C.sl(None, -1), C.sl(1, L - 1), C.sl(-2, None)]:
                 for other in (0, -1):
                     yield mk(rng, lens, ca, nd, citem, others=other)
+    # a lone int or slice (not a tuple) is an index on the FIRST cube axis, as for numpy - also when the common
+    # axis is another one (the common axis is then taken whole)
+    for lens in ([[2, 1, 3], [1, 2], [3]] if tier == "quick" else [[2, 1, 3], [1, 2], [3], [1, 1, 1, 2], [2, 2]]):
+        for ca, nd in [(1, 2), (1, 3), (2, 3)]:
+            for first in (0, 1, -1, C.sl(1, None), C.sl(None, -1), C.sl(0, 2), C.sl()):
+                case = mk(rng, lens, ca, nd, C.sl(), others=C.sl())
+                n0 = case["shapes"][0][0]
+                if isinstance(first, int) and not -n0 <= first < n0:
+                    continue
+                case["items"] = [first]
+                case["bare"] = True
+                yield case
     n_random = 600 if tier == "quick" else 60000
     for _ in range(n_random):
         n = rng.randint(1, 4)
